@@ -37,7 +37,10 @@ import (
 //     constant mapping equal to the state the value was given with Set (a stable mapping,
 //     e.g. "the source of this dependency is parameter p");
 //   - for a value-defining call with a static callee: a constant summary state for the
-//     callee function value, which no transfer reads (it starts at Ident and changes once).
+//     callee function value, which no transfer reads (it starts at Ident and changes once);
+//   - for the function's *ir.Return (when mm is divisible by 10): a summary mapping for the
+//     function value itself, function ↦ merge of the states of the results (kind s<v>). Return
+//     is not an ir.Value: Referrers() is nil.
 //
 // An instr entry is kind:ops:refs:pre:post with pre/post = the constant mappings `v=c,…`
 // returned before / after the instruction's own mapping.
@@ -75,6 +78,10 @@ func sparseLine(line string) (res string) {
 		size = 10
 	case lat == "n5":
 		size = 5
+	case lat == "and2":
+		size = 4
+	case lat == "and3":
+		size = 8
 	case strings.HasPrefix(lat, "bits"):
 		size = 1 << uint(atoi(lat[4:]))
 	default:
@@ -133,6 +140,10 @@ func sparseLine(line string) (res string) {
 		return sparseRun[flatLat](fn, lat, size, params, tabs, unary, binary, tok[3], mm)
 	case lat == "n5":
 		return sparseRun[n5Lat](fn, lat, size, params, tabs, unary, binary, tok[3], mm)
+	case lat == "and2":
+		return sparseRun[and2Lat](fn, lat, size, params, tabs, unary, binary, tok[3], mm)
+	case lat == "and3":
+		return sparseRun[and3Lat](fn, lat, size, params, tabs, unary, binary, tok[3], mm)
 	default:
 		return sparseRun[bitsLat](fn, lat, size, params, tabs, unary, binary, tok[3], mm)
 	}
@@ -144,9 +155,10 @@ type xmap struct {
 }
 
 type ispec struct {
-	kind      string // phi | none | u | b
+	kind      string // phi | none | u | b | s
 	tab       int
 	ops       []ir.Value // the values the transfer reads
+	sum       ir.Value   // kind s: the value the instruction's (only) computed mapping is for
 	pre, post []xmap     // constant extra mappings returned before / after the own one
 }
 
@@ -228,6 +240,12 @@ func sparseRun[L dfa.Semilattice[int]](fn *ir.Function, lat string, size int, pa
 			}
 		case *ir.UnOp:
 			sp.kind, sp.tab = "u", unary[int(in.Op)%len(unary)]
+		case *ir.Return:
+			sp.kind = "none"
+			if mm > 0 && mm%10 == 0 && len(rd) > 0 {
+				sp.kind, sp.sum = "s", fn
+				numOf(fn)
+			}
 		default:
 			if isVal {
 				sp.kind, sp.tab = "u", unary[hash(fmt.Sprintf("%T", in))%len(unary)]
@@ -288,7 +306,8 @@ func sparseRun[L dfa.Semilattice[int]](fn *ir.Function, lat string, size int, pa
 					if !isVal || h%4 == 0 {
 						continue
 					}
-					x = xmap{o, 1 + hash("callee/"+o.Name())%(size-1)}
+					// a state different from Ident
+					x = xmap{o, (l.Ident() + 1 + hash("callee/"+o.Name())%(size-1)) % size}
 				default:
 					if h%3 == 0 {
 						continue
@@ -325,6 +344,12 @@ func sparseRun[L dfa.Semilattice[int]](fn *ir.Function, lat string, size int, pa
 		case "b":
 			a, b := ins.Value(sp.ops[0]), ins.Value(sp.ops[1])
 			ms = append(ms, sparse.M(in.(ir.Value), tabs[sp.tab].t[a*size+b], sparse.Decision{Inputs: sp.ops}))
+		case "s":
+			d := l.Ident()
+			for _, o := range sp.ops {
+				d = l.Merge(d, ins.Value(o))
+			}
+			ms = append(ms, sparse.M(sp.sum, d, sparse.Decision{Inputs: sp.ops, Description: "summary"}))
 		}
 		for _, x := range sp.post {
 			ms = append(ms, sparse.M(x.val, x.code, sparse.Decision{Source: true}))
@@ -349,7 +374,16 @@ func sparseRun[L dfa.Semilattice[int]](fn *ir.Function, lat string, size int, pa
 				ins.Set(v, c)
 			}
 		}
-		ins.Forward(fn)
+		// a panic of the real solver is part of the result (the dump is still printed)
+		msg := func() (msg string) {
+			defer func() {
+				if r := recover(); r != nil {
+					msg = "panic: " + strings.ReplaceAll(strings.ReplaceAll(fmt.Sprint(r), "\n", " "), " ~ ", " ")
+				}
+			}()
+			ins.Forward(fn)
+			return ""
+		}()
 		vals := make([]string, nvals)
 		for i := range vals {
 			vals[i] = strconv.Itoa(l.Ident())
@@ -358,6 +392,9 @@ func sparseRun[L dfa.Semilattice[int]](fn *ir.Function, lat string, size int, pa
 			vals[i] = strconv.Itoa(ins.Value(v))
 		}
 		r := "val=" + strings.Join(vals, ",")
+		if msg != "" {
+			r = msg
+		}
 		dup := false
 		for _, o := range results {
 			if o == r {
@@ -382,6 +419,9 @@ func sparseRun[L dfa.Semilattice[int]](fn *ir.Function, lat string, size int, pa
 		k := sp.kind
 		if k == "u" || k == "b" {
 			k += strconv.Itoa(sp.tab)
+		}
+		if k == "s" {
+			k += strconv.Itoa(valIdx[sp.sum])
 		}
 		var ops, refs []string
 		for _, o := range sp.ops {
